@@ -176,9 +176,9 @@ def memory_recording(props=None):
             d1 = s.dcontents(d); wrote = z3.And(d1[0][fr['key']], d1[1][fr['key']] == fr['value'], z3.Implies(ko != fr['key'], z3.And(d1[0][ko] == d0[0][ko], d1[1][ko] == d0[1][ko])))
             U = qual.split(':')[1]
             if oc[0] == 'return':
-                obl.append(Obl('C07/%s/stores_exactly_this_entry' % U, P, s, z3.And(wrote, z3.Not(closed)) if closed_matters else wrote, oc))
+                obl.append(Obl('C07/%s/stores_exactly_this_entry' % U, P + ('C04',), s, z3.And(wrote, z3.Not(closed)) if closed_matters else wrote, oc))
             else:
-                obl.append(Obl('C05/%s/raises_only_when_closed' % U, ('C05', 'C07'), s, z3.And(z3.BoolVal(closed_matters), closed, TYP(Val.addr(oc[1])) == K('AssertionError'),
+                obl.append(Obl('C05/%s/raises_only_when_closed' % U, ('C05', 'C07', 'C04'), s, z3.And(z3.BoolVal(closed_matters), closed, TYP(Val.addr(oc[1])) == K('AssertionError'),
                                                                                              d1[0] == d0[0], d1[1] == d0[1]), oc))
     ex, st, rec, d, mt, fr, node = start(RC + 'add_metadata', ['metadata']); md = st.sym_obj('md', 'dict'); st.frames[st.stack[-1]]['metadata'] = md
     m0 = st.dcontents(mt); u = st.dcontents(md); closed = truthy(st.rd(rec, '_closed')); k = fresh('k')
